@@ -37,6 +37,19 @@ def budget(tier: str) -> dict:
 @st.composite
 def _case(draw) -> dict:
     spec = draw(gm.full_spec(ia_weight=3, max_nodes=9, allow_readouts=False))
+    # a chain of derived quantities over parameters only, placed anywhere in the declaration order
+    plain0 = [n for n, p in decls_of(spec, "parameter") if "ia" not in p]
+    if plain0 and draw(st.integers(0, 2)) == 0:
+        import copy
+
+        spec = copy.deepcopy(spec)
+        chain: list[str] = []
+        for i in range(draw(st.integers(2, 3))):
+            pool = chain[-1:] + [draw(st.sampled_from(chain + plain0)) for _ in range(draw(st.integers(0, 2)))] if chain else [draw(st.sampled_from(plain0)) for _ in range(draw(st.integers(1, 2)))]
+            name = f"dp{i}"
+            d = ["derived", name, {"fn": draw(gm.fn_desc(len(pool))), "args": pool}]
+            spec["decls"].insert(draw(st.integers(0, len(spec["decls"]))), d)
+            chain.append(name)
     state2 = draw(gm.state_for(spec))
     t2 = draw(gm.time_value.filter(lambda t: t != 0.0))
     plain_vars = [n for n, p in decls_of(spec, "variable") if "ia" not in p]
@@ -100,6 +113,14 @@ def examine(case: dict, ctx) -> Outcome:
         out.classes.append("state2_differs_in_read_variable")
     if deep and reads_changed:
         out.nontrivial = gm.structure_key(spec)
+    dps = set(ref.derived_parameters())
+    seen_d: set[str] = set()
+    for k, n, p in spec["decls"]:
+        if k == "derived":
+            if n in dps and any(a in dps and a not in seen_d for a in p["args"]):
+                out.classes.append("derived_parameter_declared_before_its_derived_parameter_argument")
+                break
+            seen_d.add(n)
 
     try:
         m = build(spec)
@@ -227,7 +248,7 @@ def examine(case: dict, ctx) -> Outcome:
 
 def floors(ctx) -> list[str]:
     c = []
-    for k in ["deep_assignment", "state2_differs_in_read_variable", "ia_on_flux", "ia_on_ia", "ia_on_derived"]:
+    for k in ["deep_assignment", "state2_differs_in_read_variable", "ia_on_flux", "ia_on_ia", "ia_on_derived", "derived_parameter_declared_before_its_derived_parameter_argument"]:
         if ctx.classes.get(k, 0) < max(5, ctx.evaluations // 50):
             c.append(f"class {k} only {ctx.classes.get(k, 0)}/{ctx.evaluations}")
     return c
